@@ -11,6 +11,21 @@ R1  canonical-form comparison: ISA temperature / pressure / altitude branches,
     BFFM2 humidity / ambient NOx correction (eqs. 44-45); HC/CO ambient factor,
     ACRP slope, horizontal level and intercept; fuel-sulfur SOx; FOA3 delta
     table and formula; fuel-flow PMvol constants; SCOPE11 C_BC, k_slm, Q, AFR.
+    Numbers may be literals, module constants or constants imported from
+    another repository module (folded exactly); a parameter that is not a
+    symbol of the cited equation enters with its default value (the cited
+    method is what the function computes when its optional knobs are left
+    alone).  Formulas that depend on a discriminating parameter (SCOPE11
+    k_slm and Q per engine type) are selected by *running the dispatch for
+    each value* (ValueCase): CFG branches, `match` cases, conditional
+    expressions and dict look-ups whose condition is a decidable predicate of
+    the parameter are taken as that value takes them, locals are read through
+    their unique reaching definition on the pruned graph, and every
+    definition that can execute for 'MTF' / 'TF' must equal that engine
+    type's equation — whatever the spelling of the dispatch (if/elif/else,
+    guard clauses, match/case, conditional expression, dict dispatch, a
+    per-branch factor).  A condition on the parameter that is not a
+    comparison with literals is UNDECIDED, never guessed.
 R2  inverse pair: pressure(altitude) and altitude(pressure) use mirrored
     branch tests, the same tropopause pressure, and exponents whose product
     is exactly 1.
@@ -46,10 +61,50 @@ def _refconsts():
     return {k: Fraction(repr(v)) for k, v in REF.ISA_CONSTANTS.items()}
 
 
+def visible_constants(prog, m, extra=None):
+    """numeric constants a module can name, folded exactly: those it imports from repository modules (under the
+    local alias; `import pkg.mod as c` gives `c.NAME`) and its own top-level ones"""
+    out = dict(extra or {})
+    for alias, dotted in m.imports.items():
+        r = prog.resolve_dotted(dotted)
+        if isinstance(r, tuple) and r[0] == 'const':
+            src = module_constants(r[1])
+            if r[2] in src:
+                out[alias] = src[r[2]]
+        elif r is not None and hasattr(r, 'tree') and hasattr(r, 'constants'):
+            for k, v in module_constants(r).items():
+                out[f'{alias}.{k}'] = v
+    out.update(module_constants(m, out))
+    return out
+
+
+def param_defaults(fn, consts):
+    """parameter -> exact value of its default, for defaults that fold to a number"""
+    from ..algebra import fold_constant
+    a = fn.args
+    pos = a.posonlyargs + a.args
+    pairs = list(zip(pos[len(pos) - len(a.defaults):], a.defaults)) + \
+        [(p_, d) for p_, d in zip(a.kwonlyargs, a.kw_defaults) if d is not None]
+    out = {}
+    for p_, d in pairs:
+        v = fold_constant(d, consts)
+        if v is not None:
+            out[p_.arg] = v
+    return out
+
+
 def _cmp(ctx, rule, fi, what, code_expr, ref, consts, rename=None, stop=(), refdefs=None, refconsts=None, line=None):
     try:
-        code = nf_code(fi.node, code_expr, consts, rename=rename, stop=stop)
         want = ref_normal_form(ref, refconsts if refconsts is not None else {}, refdefs)
+        # the cited method is what the function computes when its optional knobs are left alone: a parameter that is
+        # not a symbol of the cited equation enters the comparison with its default value
+        consts = dict(consts)
+        refsyms = {x.id for t in [ref] + list((refdefs or {}).values()) for x in ast.walk(ast.parse(t, mode='eval'))
+                   if isinstance(x, ast.Name)}
+        for k, v in param_defaults(fi.node, consts).items():
+            if k not in refsyms and k not in (rename or {}) and k not in stop:
+                consts.setdefault(k, v)
+        code = nf_code(fi.node, code_expr, consts, rename=rename, stop=stop)
     except AlgebraError as e:
         ctx.undecided(rule, fi, what, f'cannot normalise: {e}')
     v, why = compare2(code, want)
@@ -693,12 +748,12 @@ def rule_ffm2(ctx):
     m = prog.module('emissions/utils.py')
     fi = m.func('get_SLS_equivalent_fuel_flow')
     r = [n for n in walk_no_nested(fi.node) if isinstance(n, ast.Return)]
-    _cmp(ctx, 'C12-R1', fi, 'FFM2 Wf_SL', r[0].value, REF.FFM2['Wf_SL'], {})
-    a = fi.node.args
-    dflt = {x.arg: norm(d) for x, d in zip(a.args[-len(a.defaults):], a.defaults)}
+    vis = visible_constants(prog, m)
+    _cmp(ctx, 'C12-R1', fi, 'FFM2 Wf_SL', r[0].value, REF.FFM2['Wf_SL'], vis)
+    dflt = param_defaults(fi.node, vis)
     for k, v in REF.FFM2['defaults'].items():
-        ok = k in dflt and Fraction(dflt[k].replace('_', '')) == Fraction(repr(v))
-        ctx.ob('C12-R1', fi, f'default {k} = {dflt.get(k)}', ok, 'FFM2 reference condition' if ok else
+        ok = k in dflt and dflt[k] == Fraction(repr(v))
+        ctx.ob('C12-R1', fi, f'default {k} = {float(dflt[k]) if k in dflt else None}', ok, 'FFM2 reference condition' if ok else
                f'default {k} differs from {v}')
     # homogeneous of degree 1 in fuel flow
     try:
@@ -740,6 +795,7 @@ def rule_bffm2(ctx):
     prog = ctx.prog
     m = prog.module('emissions/ei/nox.py')
     fi = m.func('BFFM2_EINOx')
+    vis = visible_constants(prog, m)
     B = REF.BFFM2
     chain = [('theta_amb', B['theta_amb'], {}, ()), ('delta_amb', B['delta_amb'], {}, ()),
              ('Pamb_psia', B['Pamb_psia'], {}, ()),
@@ -755,7 +811,7 @@ def rule_bffm2(ctx):
         if d is None:
             ctx.undecided('C12-R1', fi, name, 'definition not found (or defined more than once)')
         n += 1
-        _cmp(ctx, 'C12-R1', fi, f'BFFM2 {name}', d, ref, {}, rename=ren, stop=stop)
+        _cmp(ctx, 'C12-R1', fi, f'BFFM2 {name}', d, ref, vis, rename=ren, stop=stop)
     ctx.floor('C12-R1/bffm2', n, 9, 'BFFM2 sub-expressions')
     d = single_def_value(fi.node, 'NOxEI')
     ok = d is not None and norm(d) in ('NOxEI_sl * correction', 'correction * NOxEI_sl')
@@ -782,14 +838,15 @@ def rule_hcco(ctx):
     f = single_def_value(fi.node, 'factor')
     if f is None:
         ctx.undecided('C12-R1', fi, 'factor', 'ambient factor not found')
-    _cmp(ctx, 'C12-R1', fi, 'HC/CO ambient factor', f, H['factor'], {})
+    vis = visible_constants(prog, m)
+    _cmp(ctx, 'C12-R1', fi, 'HC/CO ambient factor', f, H['factor'], vis)
     ap = [s for t, s, how in stores_to(fi.node) if isinstance(t, ast.Name) and t.id == 'xEI_out' and how == 'aug']
     ok = len(ap) == 1 and isinstance(ap[0].op, ast.Mult) and norm(ap[0].value) == 'factor' and not guards_of(ap[0])
     ctx.ob('C12-R1', fi, 'ambient factor multiplies every point', ok, 'xEI_out *= factor' if ok else 'the ambient factor is not applied to the whole array')
     ac = single_def_value(fi.node, 'xEI_acrp')
     if ac is None:
         ctx.undecided('C12-R1', fi, 'xEI_acrp', 'ACRP correction not found')
-    _cmp(ctx, 'C12-R1', fi, 'ACRP low-thrust correction', ac, H['acrp'], {},
+    _cmp(ctx, 'C12-R1', fi, 'ACRP low-thrust correction', ac, H['acrp'], vis,
          rename={'xEI_out[low_thrust_mask]': 'XEI', 'ff_eval[low_thrust_mask]': 'FF', 'ff_cal[ThrustMode.IDLE]': 'FF_IDLE'})
     lm = single_def_value(fi.node, 'low_thrust_mask')
     ok = lm is not None and norm(lm) == 'ff_eval < ff_cal[ThrustMode.IDLE]'
